@@ -199,3 +199,12 @@ func Pipe(b []byte) string { return strings.ReplaceAll(string(b), "\x01", "|") }
 
 // Unpipe is the inverse of Pipe.
 func Unpipe(s string) []byte { return []byte(strings.ReplaceAll(s, "|", "\x01")) }
+
+// IsAdminMsgType reports whether a MsgType value is one of the session-level (administrative) types.
+func IsAdminMsgType(t string) bool {
+	switch t {
+	case "0", "1", "2", "3", "4", "5", "A":
+		return true
+	}
+	return false
+}
